@@ -202,3 +202,8 @@ def _size_at(t, start_size, end_size, start_time, end_time, size_function):
             / (start_time - end_time)
         )
         return size_func(t)
+    elif size_function == "linear":
+        frac = (start_time - t) / (start_time - end_time)
+        return start_size + frac * (end_size - start_size)
+    else:
+        raise ValueError(f"{size_function} not a valid size function")
